@@ -74,6 +74,8 @@ def states(ids, W, max_states, log):
 
 def fields(t):
     d = t.to_dict()
+    # the custom attributes as the object itself holds them (to_dict is the library's own view of them)
+    d["__public"] = sorted(((k, v) for k, v in vars(t).items() if not k.startswith("_")), key=str)
     d["estimate"] = t.estimate
     d["spent"] = t.spent
     return d
@@ -191,6 +193,13 @@ def events_of(blob, start_id, rng_seed):
         for a in acts:
             V = pickle.loads(blob)
             w = V.wbs[wi - 1]
+            if eid % 2:
+                # history before the judged call: the plan has been copied, printed and exported before, and a task
+                # has received a custom attribute since (whatever the first copy remembered is out of date)
+                _try(lambda: (w.clone(), w.subtree(list(w.roots)[:1]), [str(t) for t in V.tasks],
+                              [t.to_dict() for t in V.tasks]))
+                for t in V.tasks:
+                    t.sincecopied = "s%s" % t.id
             pre = project_u(V)
             try:
                 if a["name"] == "Clone":
